@@ -57,12 +57,30 @@ def ref_classify(text):
         ea = root.find('roElementAction')
         op = ea.attrib.get('operation')
         tgt = ea.find('element_target')
-        src = ea.find('element_source')
-        if src is None:
+        srcs = ea.findall('element_source')
+        if not srcs:
             out.add('UnknownMosFileType')
             continue
-        key = (op, tgt is not None and tgt.find('itemID') is not None, src.find('itemID') is not None)
-        out.add(EA_CLASS.get(key, 'UnknownMosFileType'))
+
+        def has_item(elems):
+            """-> set of acceptable answers to 'carries item IDs': a non-blank itemID says yes, none says
+            no, only blank itemID tags - or several element_source tags that disagree - leave it open."""
+            answers = set()
+            for e in elems:
+                ids = e.findall('itemID')
+                if any((i.text or '').strip() for i in ids):
+                    answers.add(True)
+                elif ids:
+                    answers |= {True, False}
+                else:
+                    answers.add(False)
+            return answers or {False}
+        # in element_target a blank <itemID/> is a reference ("end of the story", C02): it counts as an item ID
+        t_ans = {tgt is not None and tgt.find('itemID') is not None}
+        s_ans = has_item(srcs[:1]) | (has_item(srcs) if len(srcs) > 1 else set())
+        for t in t_ans:
+            for s_ in s_ans:
+                out.add(EA_CLASS.get((op, t, s_), 'UnknownMosFileType'))
     # several different message elements in one document: the property does not order them
     return out
 
